@@ -467,7 +467,7 @@ static void check_section_step(cfg_t *ctx, int accepted)
 						 "[C16] sibling instances share no option array, name, default or value object");
 					a->values[0]->number = 99; /* write through the new instance */
 					z->values[0]->string[0] = 'X';
-					V_ASSERT(pa->values[0]->number == 7 && pz->values[0]->string[0] == 'q', "[C16] changing one instance is invisible in its sibling");
+					V_ASSERT(pa->values[0]->number == pre_sec0_a && pz->values[0]->string[0] == 'q', "[C16] changing one instance is invisible in its sibling");
 				}
 #endif
 			}
